@@ -199,8 +199,10 @@ def run(ctx, eng):
         if not up or cm.attr_chain(up[0].args[0]) != \
                 'self.config.client_side':
             bad.append('stream 1 not upgraded with config.client_side')
-        elif not (up[0].recv[0] == 'sub' and up[0].recv[2] == T.C(1) and
-                  cm.attr_chain(up[0].recv[1]) == 'self.streams'):
+        elif not ((up[0].recv[0] == 'sub' and up[0].recv[2] == T.C(1) and
+                   cm.attr_chain(up[0].recv[1]) == 'self.streams') or
+                  (bn and up[0].recv == bn[0].result)):
+            # streams[1], or the stream _begin_new_stream(1, ..) returned
             bad.append('upgrade() not called on stream 1')
         if bn and up and p.index(bn[0]) > p.index(up[0]):
             bad.append('upgrade before creation')
